@@ -610,6 +610,12 @@ func (s *Schema) UnmarshalJSON(data []byte) error {
 		return err
 	}
 
+	if props.Items != nil && props.Items.Schema == nil && props.Items.Schemas == nil {
+		// "items" was neither a schema nor an array of schemas: it holds nothing,
+		// and would otherwise be encoded as "items": null
+		props.Items = nil
+	}
+
 	sch := Schema{
 		SchemaProps:        props.SchemaProps,
 		SwaggerSchemaProps: props.SwaggerSchemaProps,
